@@ -6,7 +6,7 @@ from harness import machines
 from mingus.core import value as mvalue
 
 ID = "C13"
-LEAN_MODULES = ["Mingus.Props.C13", "Mingus.Tie.C13"]
+LEAN_MODULES = ["Mingus.Props.C13", "Mingus.Props.C13Dyadic", "Mingus.Lemmas.Float", "Mingus.Tie.C13"]
 RULE = ("all sequences of depth <=3 (quick) / <=4 (thorough) over {place v, rest v, +, remove-last} x 9 values x 7 meters; every "
         "single-value and two-value alternating fill-to-capacity (and one placement beyond) over the vocabulary (base values with "
         "0-2 dots, triplets, quintuplets, septuplets) x 7 meters; set-item / place-at / set-meter scripts; seeded random histories "
